@@ -10,6 +10,20 @@ the iterator and callback adapters) — the functions the correspondence driver 
 Words are arbitrary naturals, so every statement holds for every `Word` type.
 `s.Inv` is the documented invariant `pos ≤ buf.len()`; `C17_cursor_inv_preserved` shows that
 every trait method preserves it, the constructors establish it (`C17_constructors_inv`).
+
+Clause "positions reported can be sought back to": for `Cursor` / `Reverse<Cursor>` it holds
+at any later time (`C17_cursor_seek_back_history`; the buffer length never changes), reads
+after the seek return what the buffer holds there (`C17_cursor_reads_view`), and intervening
+writes overwrite those cells (`C17_cursor_write_overwrites`).  For `Vec` / `SmallVec` the
+clause holds only for seeking *back* after appends (`C17_vec_seek_back`); seeking forward to a
+position whose words have been read is refused (`C17_vec_seek_forward_refused`): `Vec::seek`
+is `truncate` and reads pop — the documented stack semantics, not a defect.
+
+`C17_smallvec_refines_vec` is true by construction: the `SmallVec` model *is* the `Vec` model
+plus the `spilled` flag, because `backends.rs` implements the traits for both by the same
+`push`/`pop`/`truncate`/`len` calls.  That the real `SmallVec` behaves like the real `Vec`
+(including across the inline-capacity boundary, lengths 3/4/5 with `N = 4`) is established by
+the correspondence and the oracles only, not by a theorem.
 -/
 namespace CV.Backend.C17
 
@@ -150,6 +164,54 @@ theorem C17_cursor_seek_accepted (wr : Bool) (s : Cur) (q : Nat) (h : q ≤ s.in
 example : Cur.step true (.fwd ⟨[1, 2, 3], 1⟩) (.seek 4) = .ok (.err, .fwd ⟨[1, 2, 3], 1⟩) :=
   (C17_cursor_seek_refused_iff true _ 4).mpr (by decide)
 
+/-- **history form**: a position `p` reported at any point stays acceptable to `seek` after any
+    later history of trait methods (reads with either semantics, writes, `extend_from_iter`,
+    seeks, `into_reversed`, queries), because no trait method changes the buffer length; the
+    seek sets exactly `p` and leaves the buffer as the history left it -/
+theorem C17_cursor_seek_back_history (wr : Bool) (s : Cur) (hI : s.Inv) (p : Nat)
+    (hp : Cur.step wr s .pos = .ok (.num p, s)) (ops : List Op)
+    (hops : ∀ op ∈ ops, ∀ ws, op ≠ .bmSet ws) :
+    ∃ outs s1 s2, Cur.run wr s ops = (outs, .ok s1) ∧
+      Cur.step wr s1 (.seek p) = .ok (.ok, s2) ∧
+      s2.inner.pos = p ∧ s2.inner.buf = s1.inner.buf ∧ s2.Inv :=
+  Cur.seek_back_after_history wr s hI p hp ops hops
+
+example := C17_cursor_seek_back_history true (.fwd ⟨[1, 2, 3, 4], 2⟩)
+  (by simp [Cur.Inv, Cur.inner, Cursor.Inv]) 2 rfl
+  [.readS, .write 9, .write 8, .seek 0, .readQ, .intoReversed, .extend [5, 6, 7]] (by simp)
+
+/-- the buffer length is constant along every history of trait methods -/
+theorem C17_cursor_len_constant (wr : Bool) (ops : List Op) (s : Cur) (hI : s.Inv)
+    (hops : ∀ op ∈ ops, ∀ ws, op ≠ .bmSet ws) :
+    ∃ outs s', Cur.run wr s ops = (outs, .ok s') ∧ s'.Inv ∧
+      s'.inner.buf.length = s.inner.buf.length :=
+  Cur.run_len wr ops s hI hops
+
+/-- **what reads return after a seek (or at any time)**: exactly the words the buffer holds
+    below the position going down (`Stack`) / from the position going up (`Queue`) — for a
+    `Reverse<Cursor>` the two swap — and `Ok(None)` afterwards -/
+theorem C17_cursor_reads_view (wr : Bool) (s : Cur) (hI : s.Inv) (m : Nat) :
+    (Cur.run wr s (List.replicate (s.stackView.length + m) Op.readS)).1 =
+      s.stackView.map (fun w => Out.word (some w)) ++ List.replicate m (Out.word none) ∧
+    (Cur.run wr s (List.replicate (s.queueView.length + m) Op.readQ)).1 =
+      s.queueView.map (fun w => Out.word (some w)) ++ List.replicate m (Out.word none) :=
+  ⟨Cur.readS_view wr s hI m, Cur.readQ_view wr s hI m⟩
+
+example : (Cur.run false (.fwd ⟨[1, 2, 3, 4], 3⟩) (List.replicate (3 + 1) Op.readS)).1 =
+    [.word (some 3), .word (some 2), .word (some 1), .word none] :=
+  (C17_cursor_reads_view false (.fwd ⟨[1, 2, 3, 4], 3⟩) (by simp [Cur.Inv, Cur.inner, Cursor.Inv]) 1).1
+
+/-- later **writes overwrite**: a write replaces the cell at the position (`pos` for a `Cursor`,
+    `pos − 1` for a `Reverse<Cursor>`), so a seek back followed by a read shows the new word -/
+theorem C17_cursor_write_overwrites (c c' : Cursor) (r r' : RevCursor) (w : Nat) :
+    (c.write w = .ok c' → c'.buf = c.buf.set c.pos w ∧ c'.pos = c.pos + 1) ∧
+    (r.write w = .ok r' →
+      r'.inner.buf = r.inner.buf.set (r.inner.pos - 1) w ∧ r'.inner.pos = r.inner.pos - 1) :=
+  ⟨Cursor.write_overwrites c c' w, RevCursor.write_overwrites r r' w⟩
+
+example : Cur.run true (.fwd ⟨[1, 2, 3, 4], 1⟩) [.pos, .write 9, .readQ, .seek 1, .readQ] =
+    ([.num 1, .ok, .word (some 3), .ok, .word (some 9)], .ok (.fwd ⟨[1, 9, 3, 4], 2⟩)) := rfl
+
 /-- `into_reversed` yields the mirror image and cannot fail under the invariant -/
 theorem C17_into_reversed_mirror (c : Cursor) (hI : c.Inv) :
     ∃ r, c.intoReversed = .ok r ∧ Mirror c r :=
@@ -198,6 +260,23 @@ theorem C17_vec_seek (v : VecB) (p : Nat) :
     v.seek v.pos = some v ∧ (v.seek p = none ↔ p > v.data.length) ∧
     (p ≤ v.data.length → v.seek p = some ⟨v.data.take p⟩ ∧ (VecB.mk (v.data.take p)).pos = p) :=
   ⟨VecB.seek_pos v, VecB.seek_none_iff v p, VecB.seek_some v p⟩
+
+/-- for `Vec`: a position taken before appending can be sought back to, which restores the
+    vector exactly -/
+theorem C17_vec_seek_back (v : VecB) (ws : List Nat) :
+    (VecB.mk (v.data ++ ws)).seek v.pos = some v ∧
+    Backend.run (.vec v) (ws.map Op.write ++ [Op.seek v.pos]) =
+      (List.replicate ws.length Out.ok ++ [Out.ok], .ok (.vec v)) :=
+  ⟨VecB.seek_back_after_writes v ws, Backend.vec_seek_back v ws⟩
+
+/-- the negative fact (documented stack semantics of `Vec`: `seek` truncates, reads pop): after
+    a successful read the previously reported position is refused.
+    `backend.vec 8 | data 1,2,3 | pos | read_s | seek 3` → `ok | 3 | 3 | err` on the real code. -/
+theorem C17_vec_seek_forward_refused :
+    (∀ v : VecB, v.data ≠ [] → ((v.read).2).seek v.pos = none) ∧
+    Backend.run (.vec ⟨[1, 2, 3]⟩) [.pos, .readS, .seek 3] =
+      ([.num 3, .word (some 3), .err], .ok (.vec ⟨[1, 2]⟩)) :=
+  ⟨VecB.seek_forward_refused, rfl⟩
 
 example : Backend.run (.vec ⟨[1, 2]⟩) ([7, 8, 9].map Op.write ++ List.replicate 3 Op.readS) =
     ([.ok, .ok, .ok, .word (some 9), .word (some 8), .word (some 7)], .ok (.vec ⟨[1, 2]⟩)) :=
@@ -251,10 +330,31 @@ theorem C17_callback (cb : Callback) (ws : List Nat)
     cb.extend ws = (.ok, { cb with log := cb.log ++ ws, calls := cb.calls + ws.length }) :=
   ⟨Backend.cbF_writes ws cb h, Callback.extend_ok ws cb h⟩
 
-theorem C17_callback_extend_stops (cb : Callback) (w : Nat) (ws : List Nat)
-    (h : cb.failAt.contains cb.calls = true) :
-    cb.extend (w :: ws) = (.extCbErr ws.length, { cb with calls := cb.calls + 1 }) :=
-  Callback.extend_fail_first cb w ws h
+/-- `extend_from_iter` stops at the k-th call when that is the first to fail (`k = pre.length`):
+    the words before it are delivered, the failing word is consumed and lost, `post` stays in
+    the iterator -/
+theorem C17_callback_extend_stops (cb : Callback) (pre : List Nat) (w : Nat) (post : List Nat)
+    (hpre : ∀ i, i < pre.length → cb.failAt.contains (cb.calls + i) = false)
+    (hk : cb.failAt.contains (cb.calls + pre.length) = true) :
+    cb.extend (pre ++ w :: post) =
+      (.extCbErr post.length,
+        { cb with log := cb.log ++ pre, calls := cb.calls + pre.length + 1 }) :=
+  Callback.extend_fail_kth pre cb w post hpre hk
+
+example : (Callback.mk [] 0 [2]).extend ([1, 2] ++ 3 :: [4, 5]) = (.extCbErr 2, ⟨[1, 2], 3, [2]⟩) :=
+  C17_callback_extend_stops ⟨[], 0, [2]⟩ [1, 2] 3 [4, 5] (by decide) (by decide)
+
+/-- `InfallibleCallbackWriteWords`: writes and `extend_from_iter` cannot fail and deliver every
+    word once, in order -/
+theorem C17_callback_infallible (cb : Callback) (h : cb.failAt = []) (ws : List Nat) :
+    Backend.run (.cbI cb) (ws.map Op.write) =
+      (List.replicate ws.length Out.ok,
+        .ok (.cbI { cb with log := cb.log ++ ws, calls := cb.calls + ws.length })) ∧
+    Backend.step (.cbI cb) (.extend ws) =
+      .ok (.ok, .cbI { cb with log := cb.log ++ ws, calls := cb.calls + ws.length }) :=
+  ⟨Backend.cbI_writes ws cb h, Backend.cbI_extend cb h ws⟩
+
+example := C17_callback_infallible ⟨[9], 1, []⟩ rfl [1, 2, 3]
 
 example :=
   C17_callback ⟨[], 0, [5]⟩ [1, 2, 3] (by decide)
@@ -286,3 +386,10 @@ end CV.Backend.C17
 #print axioms CV.Backend.C17.C17_iter_fused
 #print axioms CV.Backend.C17.C17_callback
 #print axioms CV.Backend.C17.C17_callback_extend_stops
+#print axioms CV.Backend.C17.C17_callback_infallible
+#print axioms CV.Backend.C17.C17_cursor_seek_back_history
+#print axioms CV.Backend.C17.C17_cursor_len_constant
+#print axioms CV.Backend.C17.C17_cursor_reads_view
+#print axioms CV.Backend.C17.C17_cursor_write_overwrites
+#print axioms CV.Backend.C17.C17_vec_seek_back
+#print axioms CV.Backend.C17.C17_vec_seek_forward_refused
